@@ -105,6 +105,23 @@ def run(ctx):
             check_padding(row, n, pt, ak, hk, iv)
         ctx.count_distinct(("pad", n))
 
+    # plaintexts of 8 MiB and more (file downloads, screenshots): one CBC chain from the first block to the last
+    from Crypto.Cipher import AES as _AES
+
+    for n_big in ([8 << 20] if q else [(8 << 20) - 16, 8 << 20, (8 << 20) + 17, (16 << 20) + 1]):
+        ak, hk, iv = keys()
+        pt = rng.randbytes(n_big)
+        padded = pt + b"A" * (16 - n_big % 16)
+        want_ct = _AES.new(ak, _AES.MODE_CBC, iv).encrypt(padded)
+        o = core.outcome(c2.encrypt_packet, pt, ak, hk, iv)
+        ctx.evaluations += 2
+        if o[0] != "ok" or bytes(o[1].ciphertext) != want_ct or bytes(o[1].signature) != ref_sig(want_ct, hk):
+            first = None if o[0] != "ok" else next((i for i, (a_, b_) in enumerate(zip(bytes(o[1].ciphertext), want_ct)) if a_ != b_), None)
+            viol("encrypt_packet", "ciphertext", {"ptLen": n_big, "first_difference": first, "got": str(o)[:80] if o[0] != "ok" else "different bytes"})
+        d = core.outcome(c2.decrypt_packet, c2.EncryptedPacket(want_ct, ref_sig(want_ct, hk)), ak, hk, iv)
+        if d != ("ok", padded):
+            viol("decrypt_packet", "plaintext", {"ptLen": n_big, "got": str(d)[:80] if d[0] != "ok" else "different bytes"})
+        ctx.count_distinct(("big", n_big))
     # every tampering scenario of the table
     def run_scenario(row, after_success=False):
         n = row["ptLen"]
